@@ -82,10 +82,12 @@ impl<'a> Cel<'a> {
     }
 }
 
-/// Organizes all Cels into a 2d array.
+/// Organizes all Cels by frame and layer.
 pub(crate) struct CelsData<P> {
-    // Mapping: frame_id -> layer_id -> Option<RawCel>
-    data: Vec<Vec<Option<RawCel<P>>>>,
+    // Mapping: frame_id -> cels of that frame. Only cels that exist are stored,
+    // so memory use is proportional to the number of cels in the file. After
+    // validation each frame's cels are sorted by layer id (and unique).
+    data: Vec<Vec<RawCel<P>>>,
     num_frames: u32,
 }
 #[derive(Debug, Clone, Copy)]
@@ -107,16 +109,14 @@ where
     fn fmt(&self, f: &mut fmt::Formatter<'_>) -> fmt::Result {
         let mut d = f.debug_map();
         for frame in 0..self.data.len() {
-            for (layer, cel) in self.data[frame].iter().enumerate() {
-                if let Some(ref cel) = cel {
-                    d.entry(
-                        &CelId {
-                            frame: frame as u16,
-                            layer: layer as u16,
-                        },
-                        cel,
-                    );
-                }
+            for cel in self.data[frame].iter() {
+                d.entry(
+                    &CelId {
+                        frame: frame as u16,
+                        layer: cel.data.layer_index,
+                    },
+                    cel,
+                );
             }
         }
         d.finish()
@@ -126,8 +126,7 @@ where
 impl<P> CelsData<P> {
     pub(crate) fn new(num_frames: u32) -> Self {
         let mut data = Vec::with_capacity(num_frames as usize);
-        // Initialize with one layer (outer Vec) and zero RawCel (inner Vec).
-        data.resize_with(num_frames as usize, || vec![None]);
+        data.resize_with(num_frames as usize, Vec::new);
         CelsData { data, num_frames }
     }
 
@@ -141,54 +140,37 @@ impl<P> CelsData<P> {
         Ok(())
     }
 
+    // Cels are stored in file order while parsing. `validate` sorts them by
+    // layer and rejects multiple cels for the same frame and layer.
     pub(crate) fn add_cel(&mut self, frame_id: u16, cel: RawCel<P>) -> Result<()> {
         self.check_valid_frame_id(frame_id)?;
-
-        let layer_id = cel.data.layer_index;
-        let min_layers = layer_id as u32 + 1;
-        let layers = &mut self.data[frame_id as usize];
-        if layers.len() < min_layers as usize {
-            layers.resize_with(min_layers as usize, || None);
-        }
-        if layers[layer_id as usize].is_some() {
-            return Err(AsepriteParseError::InvalidInput(format!(
-                "Multiple Cels for frame {}, layer {}",
-                frame_id, layer_id
-            )));
-        }
-        layers[layer_id as usize] = Some(cel);
-
+        self.data[frame_id as usize].push(cel);
         Ok(())
     }
 
     pub(crate) fn frame_cels(&self, frame_id: u16) -> impl Iterator<Item = (u32, &RawCel<P>)> {
         self.data[frame_id as usize]
             .iter()
-            .enumerate()
-            .filter_map(|(layer_id, cel)| cel.as_ref().map(|c| (layer_id as u32, c)))
+            .map(|cel| (cel.data.layer_index as u32, cel))
     }
 
-    // Frame ID must be valid. If Layer ID is out of bounds always returns an
-    // empty Vec.
+    // Frame ID must be valid. If there is no cel for the layer returns `None`.
+    // Requires cels to be sorted by layer, i.e., must be called after `validate`.
     pub(crate) fn cel(&self, cel_id: CelId) -> Option<&RawCel<P>> {
         let CelId { frame, layer } = cel_id;
-        let layers = &self.data[frame as usize];
-        if (layer as usize) >= layers.len() {
-            None
-        } else {
-            layers[layer as usize].as_ref()
-        }
+        let cels = &self.data[frame as usize];
+        cels.binary_search_by_key(&layer, |cel| cel.data.layer_index)
+            .ok()
+            .map(|index| &cels[index])
     }
 
+    // Used while parsing (cels are in file order). The cel we are looking for
+    // is usually the one that was added last.
     pub(crate) fn cel_mut(&mut self, cel_id: &CelId) -> Option<&mut RawCel<P>> {
-        let frame = cel_id.frame;
-        let layer = cel_id.layer;
-        let layers = &mut self.data[frame as usize];
-        if (layer as usize) >= layers.len() {
-            None
-        } else {
-            layers[layer as usize].as_mut()
-        }
+        self.data[cel_id.frame as usize]
+            .iter_mut()
+            .rev()
+            .find(|cel| cel.data.layer_index == cel_id.layer)
     }
 }
 
@@ -245,35 +227,42 @@ impl RawCel<RawPixels> {
 
 impl CelsData<RawPixels> {
     pub(crate) fn validate(
-        self,
+        mut self,
         layers: &LayersData,
         tilesets: &TilesetsById,
         pixel_format: &PixelFormat,
         palette: Option<Arc<ColorPalette>>,
     ) -> Result<CelsData<Pixels>> {
         let num_frames = self.num_frames;
-        let num_layers = layers.layers.len();
         let mut result = CelsData {
             data: Vec::with_capacity(self.data.len()),
             num_frames,
         };
-        // Mapping from CelId -> bool. True if the cel can be used as a target
-        // for a linked cel. That means it must exist, and it must be a raw cel.
-        // We copy it out here, so we can consume the actual data in the
+        // Sort the cels of each frame by layer and make sure there is at most
+        // one cel per frame and layer.
+        for (frame, cels) in self.data.iter_mut().enumerate() {
+            cels.sort_by_key(|cel| cel.data.layer_index);
+            for pair in cels.windows(2) {
+                if pair[0].data.layer_index == pair[1].data.layer_index {
+                    return Err(AsepriteParseError::InvalidInput(format!(
+                        "Multiple Cels for frame {}, layer {}",
+                        frame, pair[0].data.layer_index
+                    )));
+                }
+            }
+        }
+        // The cels that can be used as a target for a linked cel, sorted by
+        // (frame, layer). A target must exist, and it must be a raw cel. We
+        // copy this out here, so we can consume the actual data in the
         // validation/transformation step.
-        let mut is_linkable_cel: Vec<bool> = Vec::with_capacity(num_frames as usize * num_layers);
-        for frame in 0..num_frames {
-            for layer in 0..num_layers {
-                let cel_id = CelId {
-                    frame: frame as u16,
-                    layer: layer as u16,
-                };
-                is_linkable_cel.push(self.cel(cel_id).map_or(false, |c| c.content.is_raw()));
+        let mut linkable_cels: Vec<(u16, u16)> = Vec::new();
+        for (frame, cels) in self.data.iter().enumerate() {
+            for cel in cels.iter().filter(|cel| cel.content.is_raw()) {
+                linkable_cels.push((frame as u16, cel.data.layer_index));
             }
         }
         let validate_ref = |id: CelId| {
-            let index = id.frame as usize * num_layers + id.layer as usize;
-            if (id.frame as u32) < num_frames && is_linkable_cel[index] {
+            if linkable_cels.binary_search(&(id.frame, id.layer)).is_ok() {
                 Ok(())
             } else {
                 Err(AsepriteParseError::InvalidInput(format!(
@@ -284,27 +273,23 @@ impl CelsData<RawPixels> {
         };
 
         // Validate and transform each cel. Consumes input arrays.
-        for (frame, cels_by_layer) in self.data.into_iter().enumerate() {
-            result.data.push(Vec::with_capacity(cels_by_layer.len()));
-            for (layer, opt_cel) in cels_by_layer.into_iter().enumerate() {
-                let cel = if let Some(cel) = opt_cel {
-                    let cel_id = CelId {
-                        frame: frame as u16,
-                        layer: layer as u16,
-                    };
-                    Some(cel.validate(
-                        cel_id,
-                        layers,
-                        tilesets,
-                        pixel_format,
-                        palette.clone(),
-                        &validate_ref,
-                    )?)
-                } else {
-                    None
+        for (frame, cels) in self.data.into_iter().enumerate() {
+            let mut validated = Vec::with_capacity(cels.len());
+            for cel in cels {
+                let cel_id = CelId {
+                    frame: frame as u16,
+                    layer: cel.data.layer_index,
                 };
-                result.data[frame].push(cel);
+                validated.push(cel.validate(
+                    cel_id,
+                    layers,
+                    tilesets,
+                    pixel_format,
+                    palette.clone(),
+                    &validate_ref,
+                )?);
             }
+            result.data.push(validated);
         }
 
         Ok(result)
